@@ -21,6 +21,8 @@ LEX = ["{{", "}}", "{%", "%}", "{{-", "-}}", "{%-", "-%}", " ", "\t", "\n", "x",
 CORE = ["{{", "}}", "{%", "%}", "{%-", "-}}", " ", "x", "'s'", "'", "1", "99999999999999999999", "|", ":", "==", "if", "else", "endif", "for", "in", "endfor", "case", "when", "endcase", "raw", "endraw", "comment", "endcomment",
         "assign", "=", "capture", "endcapture", "cycle", "tablerow", "endtablerow", "include", "elsif", "upcase", "é", "\t", "(1..3)", "break", "ifchanged", "increment", "render"]
 
+CORE4 = ["{{", "}}", "{%", "%}", "{%-", " ", "x", "'", "99999999999999999999", "|", "if", "else", "endif", "for", "endfor", "raw", "endraw", "comment", "endcomment", "case", "when", "é"]
+
 MUST_FAIL = ["{% unknown_tag %}", "{{ x | no_such_filter }}", "{{ x | upcase: 1 }}", "{{ x | plus }}", "{{ x | plus: 1, 2 }}", "{{ x | slice }}", "{% if x %}", "{% if x %}a{% endfor %}", "{% endif %}", "{% else %}", "{% elsif x %}", "{% when 1 %}",
              "{% for %}", "{% for x %}", "{% for x in %}{% endfor %}", "{% for x in y %}", "{% case %}{% endcase %}", "{% case x %}", "{% capture %}{% endcapture %}", "{% capture x %}", "{% raw %}", "{% comment %}", "{% tablerow x in y %}",
              "{{ 99999999999999999999 }}", "{{ -99999999999999999999 }}", "{% assign x = 99999999999999999999 %}", "{% if 99999999999999999999 %}{% endif %}", "{% for i in (1..99999999999999999999) %}{% endfor %}",
@@ -41,7 +43,7 @@ def gen(tier, seed):
         texts.setdefault(t, why)
     n = 4 if tier == "thorough" else 3
     for k in range(1, n + 1):
-        alpha = LEX if k <= 2 else CORE
+        alpha = LEX if k <= 2 else CORE if k == 3 else CORE4
         for combo in itertools.product(alpha, repeat=k):
             add(" ".join(combo), "exhaustive lexeme sequences (length %d)" % k)
             if k <= 2:
